@@ -1,13 +1,15 @@
 #!/bin/bash
-# usage: try_seed.sh <patch.diff> <check-id> [tier]   — applies a seeded change to /repo, runs the check, reverts.
-# prints DETECTED / MISSED; never leaves /repo modified; evidence files are restored afterwards.
+# usage: try_seed.sh <patch.diff> <check-id> [tier]
+# Applies a seeded change to a scratch worktree of /repo (HEAD) outside /repo and /verif, runs the check against it
+# (VERIF_REPO), removes the worktree. /repo itself is never modified. Evidence files are restored afterwards.
 patch=$(readlink -f "$1"); id=$2; tier=${3:-quick}
 cd "$(dirname "$0")/.."
-git -C /repo diff --quiet || { echo "/repo has local changes"; exit 2; }
+W=$(mktemp -d /var/tmp/seedtree.XXXXXX); rmdir $W
+git -C /repo worktree add -q --detach $W HEAD || exit 2
+trap 'git -C /repo worktree remove --force $W >/dev/null 2>&1; git -C /repo worktree prune' EXIT
+git -C $W apply "$patch" || { echo "patch does not apply"; exit 2; }
 cp evidence/$id.json /var/tmp/ev_$id.json 2>/dev/null
-git -C /repo apply "$patch" || { echo "patch does not apply"; exit 2; }
-out=$(./vcheck $id --tier $tier 2>&1); rc=$?
-git -C /repo checkout -- . 
+out=$(VERIF_REPO=$W ./vcheck $id --tier $tier 2>&1); rc=$?
 cp /var/tmp/ev_$id.json evidence/$id.json 2>/dev/null
 echo "$out" | grep -E "VIOLATION|^  rule=|^  [A-Za-z]|INTERNAL|^$id $tier" | head -${LINES_MAX:-12}
 if echo "$out" | grep -q "^VIOLATION property=$id"; then echo "== DETECTED ($id rc=$rc)"; else echo "== MISSED ($id rc=$rc)"; fi
